@@ -125,6 +125,15 @@ impl<T> NetworkMessage<T> {
     }
 }
 
+#[cfg(renoir_verif)]
+impl<T> NetworkMessage<T> {
+    pub(crate) fn verif_elements(&self) -> &[StreamElement<T>] {
+        match &self.data {
+            NetworkData::Batch(v) => v,
+        }
+    }
+}
+
 impl<T> IntoIterator for NetworkMessage<T> {
     type Item = StreamElement<T>;
 
